@@ -188,6 +188,87 @@ theorem ids_of_equal_fields (pyHash : Bytes → Int) (t : Tx) (wf : WFTx t) :
   refine ⟨rfl, rfl, ?_, rfl⟩
   exact (eq_iff_fields_eq _ _ wf wf).2 rfl
 
+/-! ### every serialisable class (COutPoint … CBlock and the mutable twins) -/
+
+/-- `==` between two objects of a class pair holds exactly when their serialisations are the same
+    byte string — the class tags (mutable / immutable) do not enter -/
+theorem objEq_iff_ser_eq (a b : PyObj) :
+    objEq a b = .ok true ↔ ∃ bs, a.val.ser = .ok bs ∧ b.val.ser = .ok bs := by
+  unfold objEq
+  cases ha : a.val.ser with
+  | error e => simp [err_bind]
+  | ok x =>
+    cases hb : b.val.ser with
+    | error e =>
+      simp only [ok_bind]
+      show (Except.error e : Res Bool) = .ok true ↔ _
+      simp
+    | ok y =>
+      simp only [ok_bind]
+      show (Except.ok (x == y) : Res Bool) = .ok true ↔ _
+      constructor
+      · intro h
+        injection h with h
+        have : x = y := by simpa using h
+        exact ⟨x, rfl, by rw [this]⟩
+      · rintro ⟨bs, h1, h2⟩
+        injection h1 with h1
+        injection h2 with h2
+        subst h1 h2
+        simp
+
+/-- objects with different serialisations compare unequal, whatever their classes -/
+theorem objEq_false_of_ser_ne (a b : PyObj) (x y : Bytes) (ha : a.val.ser = .ok x) (hb : b.val.ser = .ok y)
+    (hne : x ≠ y) : objEq a b = .ok false := by
+  unfold objEq
+  rw [ha, hb]
+  simp only [ok_bind]
+  show (Except.ok (x == y) : Res Bool) = _
+  have : (x == y) = false := by simpa using hne
+  rw [this]
+
+/-- the Python hash is a function of the serialisation only: equal serialisations, equal hashes —
+    in particular a mutable object and its immutable twin are interchangeable as dict / set keys -/
+theorem objHash_eq_of_ser_eq (pyHash : Bytes → Int) (a b : PyObj) (h : a.val.ser = b.val.ser) :
+    objPyHashWith pyHash a = objPyHashWith pyHash b := by
+  unfold objPyHashWith
+  rw [h]
+
+/-- `GetHash()` is the hash of the serialisation for every class but `CBlock` (header hash) -/
+theorem obj_getHash_eq (o : Obj) :
+    o.getHashWith H = match o with
+      | .block b => blockHashWith H b
+      | o => o.ser.map H := by
+  cases o <;> simp only [Obj.getHashWith] <;> (cases Obj.ser _ <;> rfl)
+
+/-- a mutable and an immutable object of any class with equal field values: identical `GetHash()`,
+    `==` in both directions and identical Python hash (whenever the fields serialise at all) -/
+theorem obj_class_indep (pyHash : Bytes → Int) (o : Obj) (bs : Bytes) (hs : o.ser = .ok bs) :
+    let a : PyObj := ⟨.immutable, o⟩
+    let b : PyObj := ⟨.mutable, o⟩
+    a.val.getHashWith H = b.val.getHashWith H ∧ objEq a b = .ok true ∧ objEq b a = .ok true ∧
+    objPyHashWith pyHash a = objPyHashWith pyHash b ∧ objPyHashWith pyHash a = .ok (pyHash bs) := by
+  refine ⟨rfl, ?_, ?_, rfl, ?_⟩
+  · exact (objEq_iff_ser_eq _ _).2 ⟨bs, hs, hs⟩
+  · exact (objEq_iff_ser_eq _ _).2 ⟨bs, hs, hs⟩
+  · show (o.ser >>= fun x => pure (pyHash x)) = _
+    rw [hs]; rfl
+
+/-- the component serialisations are the wire-format byte strings (so `GetHash()` of a component is
+    `H` of its Spec bytes) -/
+theorem obj_ser_eq_spec :
+    (∀ o, WFOutPoint o → (Obj.outPoint o).ser = .ok (outPoint o)) ∧
+    (∀ i, WFTxIn i → (Obj.txIn i).ser = .ok (txIn i)) ∧
+    (∀ o, WFTxOut o → (Obj.txOut o).ser = .ok (txOut o)) ∧
+    (∀ s, WFWitStack s → (Obj.scriptWit s).ser = .ok (witStack s) ∧ (Obj.inWit s).ser = .ok (witStack s)) ∧
+    (∀ w, (∀ s ∈ w, WFWitStack s) → (Obj.wit w).ser = .ok ((w.map witStack).flatten)) ∧
+    (∀ t, WFTx t → (Obj.tx t).ser = .ok (txBytes t)) ∧
+    (∀ h, WFHeader h → (Obj.header h).ser = .ok (header h)) ∧
+    (∀ b, WFBlock b → (Obj.block b).ser = .ok (block b)) :=
+  ⟨fun _ h => serOutPoint_ok h, fun _ h => serTxIn_ok h, fun _ h => serTxOut_ok h,
+   fun _ h => ⟨serWitStack_ok h, serWitStack_ok h⟩, fun _ h => serWitness_ok h,
+   fun _ h => serTx_ok h, fun _ h => serHeader_ok h, fun _ h => serBlock_ok h⟩
+
 /-! ### non-vacuity -/
 
 def exTx : Tx :=
